@@ -65,8 +65,15 @@ func (bc *bufferedConn) writeProcess() {
 			continue
 		}
 
-		if _, err := bc.Conn.Write(pktBuf[:n]); err != nil {
+		if written, err := bc.Conn.Write(pktBuf[:n]); err != nil {
 			bc.logger.Warnf("Failed to write: %s", err)
+			// A frame that went out in part ends the stream: the next frame would be read
+			// as the rest of it.
+			if written > 0 {
+				_ = bc.Conn.Close()
+
+				return
+			}
 
 			continue
 		}
